@@ -425,7 +425,20 @@ func writeEvidence(e Engine, tier string, seed uint64, ctx *RunCtx, opcodes map[
 	}
 	if wall > 0 {
 		cov["runs_per_hour"] = int(float64(ctx.Evals) / wall * 3600)
+		cov["scenarios_per_hour"] = int(float64(ctx.Counters["scenarios"]) / wall * 3600)
 	}
+	// which fault kinds actually fired, and how often (a subset of the counters)
+	faults := map[string]int{}
+	for k, v := range ctx.Counters {
+		for _, key := range []string{"fault", "crash", "poison", "site/", "budget_exceeded", "cold_process", "wrong_env", "huge_range", "descending"} {
+			if strings.Contains(k, key) {
+				faults[k] = v
+				break
+			}
+		}
+	}
+	cov["faults_injected"] = faults
+	cov["seed_rule"] = "scenario i uses H(VERIF_SEED, property, i); one seed = one exactly repeatable batch (./selftest.sh diffs event-log digests across processes and GOMAXPROCS values)"
 	ev := map[string]interface{}{
 		"property_id": e.Property(),
 		"tier":        tier,
